@@ -17,7 +17,7 @@ pub static C01: Scenario = Scenario {
     rule: RULE,
     runs: |t| match t {
         Tier::Quick => 40_000,
-        Tier::Thorough => 600_000,
+        Tier::Thorough => 3_000_000,
     },
     gen: |c, i| gen(c, i, true),
     judge: |run, obs| mark_nontrivial(oracle::judge("C01", run, obs), run),
@@ -34,7 +34,7 @@ pub static C02: Scenario = Scenario {
     rule: RULE,
     runs: |t| match t {
         Tier::Quick => 20_000,
-        Tier::Thorough => 200_000,
+        Tier::Thorough => 1_000_000,
     },
     gen: |c, i| gen(c, i, false),
     judge: |run, obs| mark_nontrivial(oracle::judge("C02", run, obs), run),
